@@ -240,6 +240,7 @@ func runRecv(r *common.Run, maxbuf int, carrier string, ops []rop, class string)
 		return []string{fmt.Sprintf("%s recv %d %s", r.Prop, maxbuf, common.Join(toks, ",")), "#carrier=" + carrier}
 	}
 	fail := func(why string) {
+		r.Hist["problem"]++
 		obs = append(obs, "PROBLEM:"+strings.ReplaceAll(why, " ", "_"))
 	}
 	ln := p.h.Listen(p.rs.S)
